@@ -737,7 +737,11 @@ def get_target_name(target):
         return target.name
     if isinstance(target.expression, ast.Column):
         return target.expression.name
-    return target.expression.text.strip()
+    text = target.expression.text
+    if text is None:
+        # The statement was not produced by the parser.
+        raise CompilationError('cannot determine the name of a target without source text, assign one with AS')
+    return text.strip()
 
 
 def get_columns_and_aggregates(node):
